@@ -128,7 +128,17 @@ class SourceToSourceFileImportsTransformation(SourceToSourceTransformationBase):
 
     def pretty_print(self, params=None):
         params = ImportFormatParams(params)
-        result = [block.pretty_print(params=params) for block in self.blocks]
+        result = []
+        for block in self.blocks:
+            text = block.pretty_print(params=params)
+            if (not text and result
+                and isinstance(block, SourceToSourceImportBlockTransformation)
+                and str(FileText(result[-1]).joined).endswith("\\\n")):
+                # The import block was the continuation of a line ending in
+                # a backslash ("x = 1; \\" / "import foo") and is empty now;
+                # keep that line terminated.
+                text = "\n"
+            result.append(text)
         return FileText.concatenate(result)
 
     def find_import_block_by_lineno(self, lineno: int):
